@@ -688,7 +688,9 @@ impl<'a> GExec<'a> {
             // every message of the batch still reads as the model says
             return self.check_batch_status(ctx, g, resolved, dests, props);
         }
-        if !ctx.check(res.out.is_ok(), props, "approve/honest-proof-refused", || {
+        // a retained set that is refused is also C08's "stay valid" direction
+        let with_c08b: Vec<&'static str> = props.iter().copied().chain(std::iter::once("C08")).collect();
+        if !ctx.check(res.out.is_ok(), &with_c08b, "approve/honest-proof-refused", || {
             format!(
                 "a proof with sufficient valid signatures from a retained set was refused: {}",
                 res.out.err_text()
